@@ -4,12 +4,14 @@
 package main
 
 import (
+	"bytes"
 	"encoding/json"
 	"fmt"
 	"os"
 	"path/filepath"
 	"sort"
 	"strings"
+	"unicode"
 	"unicode/utf8"
 
 	"github.com/sourcegraph/zoekt/index"
@@ -186,6 +188,169 @@ func treeCase(w *gen.Writer, r *gen.Rand) {
 	d := treeDetail{Name: []byte(e2lib.GenName(r, r.Intn(3), r.Bool()))}
 	d.Root = genNode(r, 3, gen.Pick(r, []int{0, 0, 2, 5}))
 	treeRun(w, d, "gather-tree")
+}
+
+// ---- candidateMatch.matchContent: the verification of a substring candidate ----
+
+type verifyDetail struct {
+	Pattern []byte `json:"pattern"`
+	Content []byte `json:"content"`
+	Off     int    `json:"off"`
+	CS      bool   `json:"cs"`
+}
+
+// naive reference: does the pattern occur at off — byte for byte, or rune for rune up to lower-casing — and how long
+func verifyOracle(d verifyDetail) (int, bool) {
+	if d.CS {
+		if d.Off+len(d.Pattern) > len(d.Content) {
+			return 0, false
+		}
+		for i := range d.Pattern {
+			if d.Content[d.Off+i] != d.Pattern[i] {
+				return 0, false
+			}
+		}
+		return len(d.Pattern), true
+	}
+	j := d.Off
+	for _, want := range string(d.Pattern) {
+		if j >= len(d.Content) {
+			return 0, false
+		}
+		c, sz := utf8.DecodeRune(d.Content[j:])
+		if unicode.ToLower(c) != unicode.ToLower(want) {
+			return 0, false
+		}
+		j += sz
+	}
+	return j - d.Off, true
+}
+
+func verifyRunUnguarded(w *gen.Writer, d verifyDetail, class string) {
+	sz, ok, panicked := index.VerifC02MatchContent(d.Pattern, d.Content, uint32(d.Off), d.CS)
+	impl := "no"
+	if panicked {
+		impl = "panic"
+	} else if ok {
+		impl = fmt.Sprintf("ok:%d", sz)
+	}
+	wsz, wok := verifyOracle(d)
+	verdict, key := "", ""
+	switch {
+	case panicked:
+		verdict, key = "matchContent panicked", "verify-panic"
+	case ok && !wok:
+		verdict, key = fmt.Sprintf("candidate at %d accepted (%d bytes) but the pattern does not occur there", d.Off, sz), "verify-accepts-non-occurrence"
+	case !ok && wok:
+		verdict, key = fmt.Sprintf("occurrence at %d rejected", d.Off), "verify-rejects-occurrence"
+	case ok && int(sz) != wsz:
+		verdict, key = fmt.Sprintf("occurrence at %d: match length %d, want %d", d.Off, sz, wsz), "verify-length"
+	}
+	ascii := true
+	for _, b := range append(append([]byte(nil), d.Pattern...), d.Content...) {
+		if b >= 0x80 {
+			ascii = false
+		}
+	}
+	in := ""
+	if ascii { // the Lean model of the verifier covers ASCII texts; the rest is judged by the oracle above
+		in = fmt.Sprintf("verify %d %s %s %d", map[bool]int{false: 0, true: 1}[d.CS], gen.Hex(d.Pattern), gen.Hex(d.Content), d.Off)
+	}
+	w.Emit(gen.Case{In: in, Impl: impl, Go: verdict, Key: key, Class: class, Nontrivial: len(d.Pattern) >= 3, Detail: gen.Detail(struct {
+		Verify verifyDetail `json:"verify"`
+	}{d})})
+}
+
+func verifyRun(w *gen.Writer, d verifyDetail, class string) {
+	e2lib.Guard(w, class, struct {
+		Verify verifyDetail `json:"verify"`
+	}{d}, func() { verifyRunUnguarded(w, d, class) })
+}
+
+var verifyPunct = []string{"[", "]", "{", "}", "\\", "|", "^", "~", "@", "`", "_", "\x7f", "\n", "*", "\t", ")", "\r", "-", "(", "0", "1", ";", "=", ".", "!", "\x1b"}
+
+func verifyCase(w *gen.Writer, r *gen.Rand) {
+	ascii := r.Chance(3, 4)
+	var content []byte
+	for i, n := 0, r.Range(2, 12); i < n; i++ {
+		switch {
+		case r.Chance(1, 3):
+			content = append(content, gen.Pick(r, verifyPunct)...)
+		case !ascii && r.Chance(1, 3):
+			content = append(content, gen.Pick(r, []string{"é", "É", "été", "Жук", "жук", "日本", "K", "😀"})...)
+		default:
+			content = append(content, gen.Pick(r, []string{"foo", "Foo", "BAR", "bar", "end", "start", "a_b", "k1", "x", "If", "main"})...)
+		}
+	}
+	// a piece of the content on rune boundaries
+	off := r.Intn(len(content))
+	for off > 0 && !utf8.RuneStart(content[off]) {
+		off--
+	}
+	end := off
+	for k, n := 0, r.Range(1, 8); k < n && end < len(content); k++ {
+		_, sz := utf8.DecodeRune(content[end:])
+		end += sz
+	}
+	pat := append([]byte(nil), content[off:end]...)
+	d := verifyDetail{Content: content, Off: off, CS: r.Chance(1, 3)}
+	class := "verify/exact"
+	switch r.Intn(8) {
+	case 0, 1: // exact
+	case 2, 3: // letters in the other case
+		class = "verify/other-case"
+		if r.Bool() {
+			pat = bytes.ToUpper(pat)
+		} else {
+			pat = bytes.ToLower(pat)
+		}
+	case 4, 5: // one non-letter byte replaced by its bit-0x20 counterpart: looks like a case pair, is none
+		class = "verify/near-miss-bit20"
+		var idx []int
+		for i, b := range pat {
+			if b < 0x80 && !(b >= 'A' && b <= 'Z' || b >= 'a' && b <= 'z') && b^0x20 != 0 {
+				idx = append(idx, i)
+			}
+		}
+		if len(idx) > 0 {
+			pat[gen.Pick(r, idx)] ^= 0x20
+		} else {
+			class = "verify/exact"
+		}
+	case 6: // one ASCII byte off by one, or one multi-byte rune replaced by its successor code point
+		class = "verify/near-miss-other"
+		rs := []rune(string(pat))
+		var nonASCII []int
+		for i, c := range rs {
+			if c >= 0x80 && utf8.ValidRune(c+1) && utf8.RuneLen(c+1) == utf8.RuneLen(c) {
+				nonASCII = append(nonASCII, i)
+			}
+		}
+		if len(nonASCII) > 0 && r.Bool() {
+			class = "verify/near-miss-rune"
+			rs[gen.Pick(r, nonASCII)]++
+			pat = []byte(string(rs))
+		} else {
+			i := r.Intn(len(pat))
+			if pat[i] < 0x7f && pat[i] > 1 {
+				pat[i] += byte(1 - 2*r.Intn(2))
+			}
+		}
+	default: // the pattern sticks out of the content (case-insensitive only: the case-sensitive path slices)
+		class = "verify/past-end"
+		d.Off = len(content) - len(content[off:end])
+		for d.Off > 0 && !utf8.RuneStart(content[d.Off]) {
+			d.Off--
+		}
+		pat = append(append([]byte(nil), content[d.Off:]...), 'z')
+		d.CS = false
+	}
+	if !utf8.Valid(pat) {
+		pat = append([]byte(nil), content[off:end]...)
+		class = "verify/exact"
+	}
+	d.Pattern = pat
+	verifyRun(w, d, class)
 }
 
 // ---- breakMatchesOnNewlines ----
@@ -390,6 +555,7 @@ func runEntry(w *gen.Writer, path string, class string) {
 		Break  *breakDetail  `json:"break"`
 		Rom    *romDetail    `json:"rom"`
 		Tree   *treeDetail   `json:"tree"`
+		Verify *verifyDetail `json:"verify"`
 	}
 	if e.Case != nil { // replay file: the case's detail says what to re-run
 		var c struct {
@@ -421,6 +587,8 @@ func runEntry(w *gen.Writer, path string, class string) {
 		romRun(w, *comp.Rom, class)
 	case comp.Tree != nil:
 		treeRun(w, *comp.Tree, class)
+	case comp.Verify != nil:
+		verifyRun(w, *comp.Verify, class)
 	default:
 		panic(path + ": nothing to run")
 	}
@@ -464,9 +632,33 @@ func main() {
 			files += e2lib.RunE2E(w, "C02", c, "e2e/"+class)
 		}
 	}
+	// near-miss case-insensitive patterns (one non-letter byte replaced by its bit-0x20 counterpart), with a decoy
+	// document that lets the trigram stage propose the near-miss position
+	for i, n := 0, f.N(40, 400); i < n; i++ {
+		docs := e2lib.GenCorpus(r)
+		for k := 0; k < 3; k++ {
+			q, docs2, ok := e2lib.GenNearMiss(r, docs)
+			if k == 2 { // the multi-byte flavour
+				if q2, d2, ok2 := e2lib.GenNearMissRune(r, docs); ok2 {
+					q, docs2, ok = q2, d2, true
+					w.Count("e2e/near-miss-ci rune flavour", 1)
+				}
+			}
+			if !ok {
+				w.Count("e2e/near-miss-ci: no site", 1)
+				continue
+			}
+			w.Count("e2e/near-miss-ci queries", 1)
+			c := e2lib.E2ECase{Docs: docs2, Query: e2lib.PrintQ(q), Q: e2lib.ToJSON(q), Chunks: r.Bool(), Ctx: r.Intn(4)}
+			files += e2lib.RunE2E(w, "C02", c, "e2e/near-miss-ci")
+		}
+	}
 	w.Count("e2e-files-reported", files)
 	for i, n := 0, f.N(1500, 40000); i < n; i++ {
 		treeCase(w, r)
+	}
+	for i, n := 0, f.N(3000, 60000); i < n; i++ {
+		verifyCase(w, r)
 	}
 }
 
